@@ -227,6 +227,19 @@ def check_ce(spec, ctx):
         except Exception as e:  # noqa: BLE001
             ctx.fail(f"ClipEvaluation via {p} raised {type(e).__name__}: {str(e)[:150]}", spec, repr(e)[:200], "ValidationError", kind="wrong_exception")
             results[p] = False
+    if not arr:
+        # no matches at all: leaving the argument / key out is the same arrangement as passing an empty list
+        for p in ("ctor", "dict", "json"):
+            try:
+                if p == "ctor":
+                    data.ClipEvaluation(annotations=ca, predictions=cp)
+                elif p == "dict":
+                    data.ClipEvaluation.model_validate({"annotations": ca.model_dump(), "predictions": cp.model_dump()})
+                else:
+                    data.ClipEvaluation.model_validate_json(json.dumps({"annotations": ca.model_dump(mode="json"), "predictions": cp.model_dump(mode="json")}))
+                results[p + ", matches omitted"] = True
+            except pydantic.ValidationError:
+                results[p + ", matches omitted"] = False
     for p, ok in results.items():
         if ok and not exp:
             ctx.fail(f"ClipEvaluation accepted via {p}: arrangement {arr} (k={spec['k']} annotations, m={spec['m']} predictions, clips {spec['pairing']})", spec, results, exp, kind="false_accept")
@@ -259,6 +272,8 @@ def check_ce(spec, ctx):
     for e in d["clip_evaluations"]:
         if e["uuid"] == str(ce_ok.uuid):
             e["matches"] = [m["uuid"] for m in new_matches]
+            if not new_matches and spec["pick"] % 2:
+                del e["matches"]  # key left out of the document instead of an empty list
     if spec["pairing"] != "same":
         for c in d["clip_predictions"]:
             if c["uuid"] == str(cp.uuid):
@@ -406,7 +421,8 @@ FIELDS = ["PredictedTag.score", "SoundEventPrediction.score", "SequencePredictio
 
 @st.composite
 def score_case(draw):
-    return {"field": draw(st.sampled_from(FIELDS)), "value": draw(st.sampled_from(SCORE_VALUES)), "salt": draw(st.integers(1, 2**32))}
+    return {"field": draw(st.sampled_from(FIELDS)), "value": draw(st.sampled_from(SCORE_VALUES)), "salt": draw(st.integers(1, 2**32)),
+            "container": draw(st.sampled_from(["evaluation", "evaluation", "prediction_set", "model_run"]))}
 
 
 def check_score(spec, ctx):
@@ -455,6 +471,16 @@ def check_score(spec, ctx):
     mt = data.Match(uuid=ids(), source=pred, target=ann, affinity=0.5, score=0.5)
     ce = data.ClipEvaluation(uuid=ids(), annotations=ca, predictions=cp, matches=[mt], score=0.5)
     ev = data.Evaluation(uuid=ids(), evaluation_task="t", created_on="2020-01-01T00:00:00", clip_evaluations=[ce])
+    container = spec.get("container", "evaluation")
+    if container not in ("evaluation", "prediction_set", "model_run"):
+        raise ValueError("malformed spec")
+    if f.startswith(("Match.", "ClipEvaluation.")):
+        container = "evaluation"
+    if container == "prediction_set":
+        ev = data.PredictionSet(uuid=ids(), clip_predictions=[cp], created_on="2020-01-01T00:00:00")
+    elif container == "model_run":
+        ev = data.ModelRun(uuid=ids(), name="m", clip_predictions=[cp], created_on="2020-01-01T00:00:00")
+    ctx.label(f"container={container}")
     doc = saved_doc(ev)
     d = doc["data"]
     jv = v
@@ -474,7 +500,7 @@ def check_score(spec, ctx):
         d["matches"][0]["score"] = jv
     elif f == "ClipEvaluation.score":
         d["clip_evaluations"][0]["score"] = jv
-    aoef_load_expect(ctx, spec, doc, exp, f"{f} = {v!r} in an AOEF document")
+    aoef_load_expect(ctx, spec, doc, exp, f"{f} = {v!r} in an AOEF {container} document")
 
 
 SUBS = [
